@@ -50,7 +50,7 @@ TimeAtoms  == {Atom("time", 0, op, 1) : op \in CmpOps}
                     Atom("time", 0, "noop", 0)}
 MeasAtoms  == {Atom("meas", 0, op, 1) : op \in CmpOps}
               \cup {Atom("meas", 0, "matches", 1), Atom("meas", 0, "matches", 2),
-                    Atom("meas", 0, "search", 1), AtomT("meas", 0, 1, 0),
+                    Atom("meas", 0, "search", 1), Atom("meas", 0, "search", 3), Atom("meas", 0, "matches", 3), AtomT("meas", 0, 1, 0),
                     AtomM("meas", 0, 2, "eq", 0), Atom("meas", 0, "noop", 0)}
 KeyAtoms(k) ==
      {Atom(k, 1, op, 1) : op \in CmpOps}
@@ -61,7 +61,7 @@ KeyAtoms(k) ==
            Atom(k, 2, "eq", 1), Atom(k, 2, "eq", 2), Atom(k, 2, "exists", 0)}
 TagAtoms   == KeyAtoms("tag")
               \cup {Atom("tag", 1, "matches", p) : p \in 1..5}
-              \cup {Atom("tag", 1, "search", p) : p \in {1, 2, 4}}
+              \cup {Atom("tag", 1, "search", p) : p \in 1..5}      \* 3 (".*") is the pattern that matches the empty string
 FieldAtoms == KeyAtoms("field") \cup {Atom("field", 1, op, 0) : op \in CmpOps}
 
 Atoms == TimeAtoms \cup MeasAtoms \cup TagAtoms \cup FieldAtoms
